@@ -59,3 +59,13 @@ Definition ctx_init (ths : list (ctxval * list action)) : st cshared cthread :=
 Definition ctx_run (pooled : bool) (ths : list (ctxval * list action)) (sched : list nat) : st cshared cthread :=
   run cshared cthread (ctx_step pooled) (ctx_init ths) sched.
 Definition observations (s : st cshared cthread) : list (list ctxval) := map t_obs (snd s).
+
+(* a handler that keeps per-command state (the requester's identity) in a field of the SHARED handler object instead of its
+   context / stack frame (a seeded breaking change): every command writes the one shared cell #0 at dispatch *)
+Definition ctx_step_shared (l : cthread) (s : cshared) : cthread * cshared :=
+  match t_cell l with
+  | None => (set_cell l 0, {| c_heap := match c_heap s with [] => [t_own l] | _ :: r => t_own l :: r end; c_pool := c_pool s |})
+  | Some _ => ctx_step false l s
+  end.
+Definition ctx_run_shared (ths : list (ctxval * list action)) (sched : list nat) : st cshared cthread :=
+  run cshared cthread ctx_step_shared (ctx_init ths) sched.
